@@ -54,6 +54,15 @@ let handle (toks : string list) : string =
     (match t with
      | "varint32" -> (match dec_varint_in (z_of_string "-2147483648") (z_of_string "2147483647") (bytes_of_hex h) with
                       | DOk (z, r) -> Printf.sprintf "ok z %s | %d" (string_of_z z) (List.length r) | DErr e -> "err " ^ show_err e)
+     | "varint@u64" | "varint@usize" | "varint@u8" | "varint@i8" | "varint@u16" | "varint@i16" ->
+       let (lo, hi) = (match t with "varint@u64" | "varint@usize" -> ("0", "18446744073709551615") | "varint@u8" -> ("0", "255") | "varint@i8" -> ("-128", "127")
+                                  | "varint@u16" -> ("0", "65535") | _ -> ("-32768", "32767")) in
+       (match dec_varint_in (z_of_string lo) (z_of_string hi) (bytes_of_hex h) with
+        | DOk (z, r) -> Printf.sprintf "ok z %s | %d" (string_of_z z) (List.length r) | DErr e -> "err " ^ show_err e)
+     | "varuint@i8" | "varuint@u16" | "varuint@i64" ->
+       let hi = (match t with "varuint@i8" -> "127" | "varuint@u16" -> "65535" | _ -> "9223372036854775807") in
+       (match dec_varuint_max (n_of_string hi) (bytes_of_hex h) with
+        | DOk (v, r) -> Printf.sprintf "ok n %s | %d" (string_of_n v) (List.length r) | DErr e -> "err " ^ show_err e)
      | "varuint32" -> (match dec_varuint_max (n_of_string "4294967295") (bytes_of_hex h) with
                       | DOk (v, r) -> Printf.sprintf "ok n %s | %d" (string_of_n v) (List.length r) | DErr e -> "err " ^ show_err e)
      | "genfile" -> (match dec_generated_file (bytes_of_hex h) with
